@@ -1,8 +1,9 @@
 #!/bin/sh
-# usage: confirm_seed.sh <ID> <variant>   — confirm a sub-agent seed in a scratch worktree, store under /verif/seeded/<ID>-<variant>/
-ID=$1; V=$2
-SRC=/tmp/seed-$ID/$V
-DST=/verif/seeded/$ID-$V
+# usage: confirm_seed.sh <ID> <variant> [tag] [stored-variant]  — confirm a sub-agent seed in a scratch worktree,
+# store under /verif/seeded/<ID>-<stored-variant>/  (tag selects /tmp/seed<tag>-<ID>)
+ID=$1; V=$2; TAG=$3; SV=${4:-$2}
+SRC=/tmp/seed$TAG-$ID/$V
+DST=/verif/seeded/$ID-$SV
 WT=/tmp/cwt-$ID-$V
 [ -f $SRC/patch.diff ] || { echo "no seed $SRC"; exit 2; }
 git -C /repo worktree add -q --detach $WT HEAD || exit 2
@@ -18,7 +19,7 @@ cd /; git -C /repo worktree remove --force $WT
 echo "$ID-$V unpatched_exit=$U apply=$A import_exit=$I patched_exit=$P"
 if [ "$U" = "0" ] && [ "$A" = "ok" ] && [ "$I" = "0" ] && [ "$P" = "1" ]; then
   mkdir -p $DST && cp $SRC/patch.diff $SRC/demo.py $DST/
-  /venv/bin/python - $SRC/meta.json $DST/meta.json $ID $V <<'PY'
+  /venv/bin/python - $SRC/meta.json $DST/meta.json $ID $SV <<'PY'
 import json,sys,subprocess
 src,dst,pid,v=sys.argv[1:5]
 try: m=json.load(open(src))
